@@ -362,3 +362,51 @@ func SameTargetModels() []Tagged {
 	}
 	return out
 }
+
+// TuplesetListModels: the tupleset's restriction list ranges over every list of one to three entries drawn (with repetition)
+// from {doc, doc with k, folder, folder with k}, so that a parent type is named twice (plain and conditioned, in either order,
+// or literally twice) before, between and after other parent types; the TTU sits alone, under each operator and on a cycle.
+// folder#b reaches group and user:*, doc#b reaches user only, so a lost or doubled TTU edge shows in types and weights.
+func TuplesetListModels() []Tagged {
+	var out []Tagged
+	entries := []ref.Restriction{{Type: "doc"}, {Type: "doc", Condition: "k"}, {Type: "folder"}, {Type: "folder", Condition: "k"}}
+	var lists [][]ref.Restriction
+	var rec func(cur []ref.Restriction)
+	rec = func(cur []ref.Restriction) {
+		if len(cur) > 0 {
+			lists = append(lists, append([]ref.Restriction{}, cur...))
+		}
+		if len(cur) == 3 {
+			return
+		}
+		for _, e := range entries {
+			rec(append(cur, e))
+		}
+	}
+	rec(nil)
+	u := []ref.Restriction{{Type: "user"}}
+	g := []ref.Restriction{{Type: "group"}}
+	as := []RelSpec{
+		{ref.TT("b", "p"), nil, "b from p"},
+		{ref.U(ref.T(), ref.TT("b", "p")), g, "[group] or b from p"},
+		{ref.I(ref.TT("b", "p"), ref.T()), u, "b from p and [user]"},
+		{ref.U(ref.T(), ref.TT("a", "p")), u, "[user] or a from p"},
+	}
+	for _, l := range lists {
+		for _, a := range as {
+			doc := ref.TypeDef{Name: "doc", Rels: []ref.Relation{
+				{Name: "a", Rw: a.Rw, Restr: a.Restr},
+				{Name: "b", Rw: ref.T(), Restr: u},
+				{Name: "p", Rw: ref.T(), Restr: l},
+			}}
+			folder := ref.TypeDef{Name: "folder", Rels: []ref.Relation{
+				{Name: "a", Rw: ref.T(), Restr: g},
+				{Name: "b", Rw: ref.T(), Restr: []ref.Restriction{{Type: "group"}, {Type: "user", Wildcard: true}}},
+			}}
+			m := &ref.Model{Schema: "1.1", Types: []ref.TypeDef{{Name: "user"}, {Name: "group"}, doc, folder},
+				Conds: []ref.Condition{{Name: "k", Params: []ref.Param{{Name: "x", Type: "int"}}, Expr: "x < 1"}}}
+			out = append(out, Tagged{Tag: fmt.Sprintf("tupleset-list: a: %s | b: [user] | p: %v", a.Tag, l), M: m})
+		}
+	}
+	return out
+}
